@@ -37,6 +37,13 @@ def config_text(n, rng, plain=None):
             return base
     if n <= len(base.encode()):
         return 'a="%s"\n' % ("x" * max(0, n - 5)) if n >= 5 else "a=1\n"[:max(n, 4)]
+    # values with characters that mean something elsewhere: '=', '#', and the characters str.splitlines() (but not a VMX reader,
+    # whose lines end at "\n") treats as line boundaries
+    awkward = ['annotation = "first\x0bsecond \x85 third \u2028 fourth \x1c x"\n', 'guestinfo.a = "k=v; #not a comment"\n', 'guestinfo.b = "ff\x0cfeed \u2029 p \x1e q"\n',
+               'guestinfo.cr = "carriage\rreturn"\n']
+    for extra_line in awkward:
+        if len((base + extra_line).encode()) + 4 <= n:
+            base += extra_line
     return base + "# " + "p" * (n - len(base.encode()) - 3) + "\n"
 
 
@@ -73,7 +80,8 @@ def make_bundle(pairs, data_tamper, rng, *, cipher=None, mac=None, kdf=None, cfg
                                   salt=(SALTS[16][0] if fixed_kdf_inputs else rng.choice(SALTS[rng.choice([8, 16, 32])]) if rng.random() < 0.7
                                         else bytes(rng.randrange(256) for _ in range(rng.choice([8, 16, 32])))),
                                   iv=bytes(rng.randrange(256) for _ in range(16)), data_cipher=data_cipher,
-                                  tamper=tam if p["tamper"] != "none" else None))
+                                  tamper=tam if p["tamper"] != "none" else None,
+                                  order=rng.sample(range(4), 4) if rng.random() < 0.5 else None))    # key=value lists: any order of the fields
     db = bytearray(E.blob(data_key, cfg.encode(), data_mac, bytes(rng.randrange(256) for _ in range(16))))
     n = E.MACS[data_mac][1]
     if data_tamper == "iv":
@@ -127,6 +135,19 @@ def unlock_and_compare(ctx, text, cfg, want_ok, attrs, det, phrase=PASS):
         except Exception:  # noqa: BLE001
             if v.attr != snap:
                 ctx.violation({**attrs, "fail": "attr-changed-on-failure", "after": "success"}, det)
+                return False
+        # a fresh object parsed from the same text starts locked again, and stays so when given another passphrase
+        v3 = VMX.parse(text)
+        if dict(v3.attr) != before:
+            ctx.violation({**attrs, "fail": "fresh-object-not-locked"}, {**det, "extra_keys": sorted(set(v3.attr) - set(before))[:5]})
+            return False
+        try:
+            v3.unlock_with_phrase(phrase + "x" if phrase != "x" else "y")
+            ctx.violation({**attrs, "fail": "accepted-wrong-passphrase-after-success", "how": "fresh-object"}, {**det, "phrase": phrase})
+            return False
+        except Exception:  # noqa: BLE001
+            if dict(v3.attr) != before:
+                ctx.violation({**attrs, "fail": "attr-changed-on-failure", "after": "success-on-another-object"}, det)
                 return False
         # asking again - the same object, and a fresh object parsed from the same text - must give the same answer
         for how in ("same-object", "fresh-object"):
